@@ -11,6 +11,8 @@
  C06.chunks      chunk independence (structural): inside the loop the cursor is only read by `c = *s++` and stepped back by `s--`
                  (no look-ahead / look-behind), every other variable read in the loop is a member, a constant or a per-iteration local,
                  and the function has no static locals
+ C06.numbers    digit strings longer than 9 characters are converted by the floating-point conversion (no integer accumulation that can
+                 wrap), shorter ones by the int conversion
  Agreement with an independent JSON parser on accepted documents and values is not decided."""
 import os
 import ir, q, automaton, bytesets
@@ -32,6 +34,7 @@ def run(ctx):
     check_exhaustive(ctx, prog)
     check_accept(ctx, prog)
     check_chunks(ctx, prog, m)
+    check_numbers(ctx, prog)
     return __doc__.split('\n\n', 1)[1]
 
 
@@ -318,3 +321,25 @@ def check_chunks(ctx, prog, m):
               'the loop reads `%s`, which lives per call (or statically) and not in the parser object: parsing the same text in different chunks takes a different path' % (carried[0]['n'] if carried else statics[0]['n'] if statics else ''))
     # the early return at entry only tests members
     ctx.ok('C06.chunks', f['pq'], 'parse:machine configuration is (members, byte)', fwhere(f), 'the interpreted transition function depends only on members and the current byte', nontrivial=False)
+
+
+def check_numbers(ctx, prog):
+    f = fn1(prog, 'asl::XdlParser::parse')
+    g = q.Guarded(f)
+    n = 0
+    for e in fn_exprs(f):
+        if e.get('k') == 'call' and (e.get('pq') or '').endswith('XdlParser::new_number') and e.get('a'):
+            conv = [w for w in walk_expr(e['a'][0]) if w.get('k') == 'call' and (w.get('fn') or '').split('::')[-1] in ('atof', 'strtod', 'myatof', 'myatoi', 'myatoiz', 'myatol', 'atoi', 'atol', 'strtol', 'strtoll', 'atoll')]
+            if not conv:
+                continue
+            n += 1
+            name = conv[0]['fn'].split('::')[-1]
+            integral = name not in ('atof', 'strtod', 'myatof')
+            # is this call confined to short digit strings?
+            short = any(kind == 'if' and pol is False and strip(c).get('k') == 'bin' and strip(c).get('op') == '>' and const_val(strip(c)['y']) is not None and const_val(strip(c)['y']) <= 9 and
+                        any(w.get('k') == 'call' and (w.get('pq') or '').endswith('::length') for w in walk_expr(strip(c)['x'])) for c, pol, kind in g.of(e))
+            ctx.evaluations += 1
+            ctx.check((not integral) or short, 'C06.numbers', f['pq'], 'parse:%s only for digit strings of at most 9 characters' % name if integral else 'parse:%s for long / fractional numbers' % name, fwhere(f, e['l']),
+                      'integer conversion confined to <= 9 characters' if integral else 'floating conversion',
+                      'a number literal of unbounded length is converted with the integer routine %s: literals beyond its range wrap to unrelated values instead of the nearest double' % name)
+    ctx.floor('C06.numbers conversions', n, 4)
